@@ -488,7 +488,9 @@ def run_check(spec, tier, base_seed, nproc=None, n_override=None):
     meta = spec.META
     stats = merged["stats"]
     coverage = {
-        "evaluations": merged["n"],
+        # evaluations = simulated executions (a case consists of several runs / one history); cases are counted below
+        "evaluations": int(stats.get("runs", 0)) or merged["n"],
+        "cases": merged["n"],
         "distinct_nontrivial": len(merged["fps"]),
         "rule": meta["rule"],
         "samples": merged["samples"][:4] or [{"note": "no case completed"}],
